@@ -234,15 +234,38 @@ Qed.
 
 (* ---------------------------------------------------------------- one request preserves the fit (memory, threads) *)
 
+Definition req_res (q : req) : res := match q with RNew _ r => r | RSub _ _ r => r | RUpd _ r => r end.
+
+(* The section is generic in the limit f. okr restricts the requests considered and okg is a hereditary side condition
+   on the groups (both trivial for memory and threads; used for the cpu quota, see below). *)
 Section Scalar.
   Variable f : limits -> Z.
   Variable sel : res -> option Z.
-  Hypothesis f_apply : forall l r, f (apply_res l r) = match sel r with Some v => v | None => f l end.
+  Variable okr : res -> Prop.
+  Variable okg : group -> bool.
+  Definition okanc (a : anc) : Prop := okg (snd a) = true.
+  Hypothesis okg_sub : forall i l ss, okg (G i l ss) = true -> forallb okg ss = true.
+  Hypothesis okg_fresh : forall id, okg (G id no_limits []) = true.
+  Hypothesis okg_step : forall ncpu st q st', okr (req_res q) -> forallb okg st = true ->
+    step ncpu st q = Some st' -> forallb okg st' = true.
+  Hypothesis f_apply : forall l r, okr r -> f (apply_res l r) = match sel r with Some v => v | None => f l end.
   Hypothesis f_zero : f no_limits = 0.
-  Hypothesis fit_sel : forall ncpu known inh g chain r, validate_fit ncpu known inh g chain r = true ->
+  Hypothesis fit_sel : forall ncpu known inh g chain r, okr r -> okg g = true -> Forall okanc chain ->
+    (known = false -> lim g = no_limits) ->
+    validate_fit ncpu known inh g chain r = true ->
     match sel r with Some v => validate_scalar f known g chain v = true | None => True end.
-  Hypothesis sub_nonneg : forall r, validate_change no_limits r = true ->
+  Hypothesis sub_nonneg : forall r, okr r -> validate_change no_limits r = true ->
     validate_limits (apply_res no_limits r) = true -> 0 <= f (apply_res no_limits r).
+
+  Lemma walk_okg : forall p inh g acc inh' t chain, okg g = true -> Forall okanc acc ->
+    walk inh g p acc = Some (inh', t, chain) -> okg t = true /\ Forall okanc chain.
+  Proof.
+    induction p as [|j p IH]; intros inh g acc inh' t chain Hg Ha W; cbn [walk] in W.
+    - inversion W; subst. auto.
+    - destruct g as [gi gl gss]. cbn [subs lim] in W. destruct (nth_error gss j) as [c|] eqn:E; [|discriminate].
+      apply (IH _ _ _ _ _ _ (forallb_nth _ _ _ _ (okg_sub _ _ _ Hg) E)) in W; [exact W|].
+      constructor; [exact Hg|exact Ha].
+  Qed.
 
   Definition Inv (st : forest) : Prop := forallb (fits f) st = true /\ forallb (nn f) st = true.
 
@@ -262,15 +285,17 @@ Section Scalar.
     intros st i root root' [H1 H2] E Hf Hn. split; apply forallb_replace; assumption.
   Qed.
 
-  Lemma step_preserves : forall ncpu st q st', Inv st -> step ncpu st q = Some st' -> Inv st'.
+  Lemma step_preserves : forall ncpu st q st', Inv st -> okr (req_res q) -> forallb okg st = true ->
+    step ncpu st q = Some st' -> Inv st'.
   Proof.
-    intros ncpu st q st' HI H. destruct q as [id r | p id r | p r]; cbn [step] in H.
+    intros ncpu st q st' HI Hok Hokg H. destruct q as [id r | p id r | p r]; cbn [step] in H; cbn [req_res] in Hok.
     - (* NewGroup *)
       destruct (update_limits ncpu true [] (G id no_limits []) [] r) as [l'|] eqn:U; [|discriminate].
       destruct (validate_limits l'); [|discriminate]. inversion H; subst st'; clear H.
       apply update_limits_inv in U. destruct U as [El [Hvc Hvf]]. cbn [lim] in *.
       assert (Hv : 0 <= f l').
-      { subst l'. rewrite f_apply, f_zero. pose proof (fit_sel _ _ _ _ _ _ Hvf) as Hs.
+      { subst l'. rewrite (f_apply _ _ Hok), f_zero.
+        pose proof (fit_sel _ _ _ _ _ _ Hok (okg_fresh id) (Forall_nil _) (fun _ => eq_refl) Hvf) as Hs.
         destruct (sel r) as [v|]; [|lia]. apply vs_known in Hs. destruct Hs as [Hs _].
         rewrite resv_eq in Hs. simpl in Hs. exact Hs. }
       destruct HI as [H1 H2]. split; rewrite forallb_app; [rewrite H1|rewrite H2]; cbn [forallb andb].
@@ -286,7 +311,10 @@ Section Scalar.
       inversion H; subst st'; clear H.
       apply andb_true_iff in V. destruct V as [_ Vl].
       apply update_limits_inv in U. destruct U as [El [Hvc Hvf]]. cbn [lim] in *.
-      assert (Hv : 0 <= f l') by (subst l'; apply sub_nonneg; [exact Hvc|exact Vl]).
+      assert (Hv : 0 <= f l') by (subst l'; apply sub_nonneg; [exact Hok|exact Hvc|exact Vl]).
+      assert (HokW : okg P = true /\ Forall okanc chain)
+        by exact (walk_okg _ _ _ _ _ _ _ (forallb_nth _ _ _ _ Hokg Er) (Forall_nil _) W).
+      destruct HokW as [HokP Hokchain].
       pose proof (walk_get _ _ _ _ _ _ _ W) as Hget.
       pose proof (walk_find f _ _ _ _ _ _ _ W) as Hfind. cbn [find option_map] in Hfind.
       destruct HI as [H1 H2].
@@ -321,7 +349,8 @@ Section Scalar.
       { rewrite sumc_app. cbn [sumc]. rewrite Hcn. lia. }
       (* the value the validator saw *)
       assert (Hval : f l' = 0 \/ validate_scalar f false (G id no_limits []) ((pinh, G pi pl pss) :: chain) (f l') = true).
-      { subst l'. rewrite f_apply, f_zero. pose proof (fit_sel _ _ _ _ _ _ Hvf) as Hs.
+      { subst l'. rewrite (f_apply _ _ Hok), f_zero.
+        pose proof (fit_sel _ _ _ _ _ _ Hok (okg_fresh id) (Forall_cons (pinh, G pi pl pss) HokP Hokchain) (fun _ => eq_refl) Hvf) as Hs.
         destruct (sel r) as [v|]; [right; exact Hs|left; reflexivity]. }
       assert (Hmain : exists d, fits f P' = true /\ contrib f P' = contrib f (G pi pl pss) + d /\
                 (forall a, nla f root p = Some a -> resv f a + d <= f (lim a))).
@@ -357,6 +386,9 @@ Section Scalar.
       destruct (update_limits ncpu true inh t chain r) as [l'|] eqn:U; [|discriminate].
       inversion H; subst st'; clear H.
       apply update_limits_inv in U. destruct U as [El [Hvc Hvf]].
+      assert (HokW : okg t = true /\ Forall okanc chain)
+        by exact (walk_okg _ _ _ _ _ _ _ (forallb_nth _ _ _ _ Hokg Er) (Forall_nil _) W).
+      destruct HokW as [Hokt Hokchain].
       pose proof (walk_get _ _ _ _ _ _ _ W) as Hget.
       pose proof (walk_find f _ _ _ _ _ _ _ W) as Hfind. cbn [find option_map] in Hfind.
       destruct HI as [H1 H2].
@@ -377,8 +409,9 @@ Section Scalar.
       set (t' := G ti l' tss).
       assert (Hmain : exists d, fits f t' = true /\ nn f t' = true /\ contrib f t' = contrib f (G ti tl tss) + d /\
                 (forall a, nla f root p = Some a -> resv f a + d <= f (lim a))).
-      { assert (Hl' : f l' = match sel r with Some v => v | None => f tl end) by (subst l'; apply f_apply).
-        pose proof (fit_sel _ _ _ _ _ _ Hvf) as Hs.
+      { assert (Hl' : f l' = match sel r with Some v => v | None => f tl end) by (subst l'; apply f_apply; exact Hok).
+        assert (Hkn : true = false -> lim (G ti tl tss) = no_limits) by (intro X; discriminate X).
+        pose proof (fit_sel _ _ _ _ _ _ Hok Hokt Hokchain Hkn Hvf) as Hs.
         destruct (sel r) as [v|].
         - apply vs_known in Hs. destruct Hs as [Hrv Hpar]. rewrite resv_eq in Hrv, Hpar. cbn [lim] in Hpar.
           exists (v - Z.max (f tl) (sumc f tss)). unfold t'. rewrite fits_eq. cbn [nn]. unfold contrib. cbn [lim].
@@ -398,10 +431,14 @@ Section Scalar.
       exact (forest_replace _ _ _ _ (conj H1 H2) Er Hf' Hn').
   Qed.
 
-  Lemma run_preserves : forall ncpu qs st, Inv st -> Inv (run ncpu st qs).
+  Lemma run_preserves : forall ncpu qs st, Forall (fun q => okr (req_res q)) qs ->
+    Inv st -> forallb okg st = true -> Inv (run ncpu st qs).
   Proof.
-    intros ncpu qs. induction qs as [|q qs IH]; intros st HI; cbn [run]; [exact HI|].
-    apply IH. destruct (step ncpu st q) as [st'|] eqn:E; [exact (step_preserves _ _ _ _ HI E)|exact HI].
+    intros ncpu qs. induction qs as [|q qs IH]; intros st Hqs HI Hg; cbn [run]; [exact HI|].
+    inversion Hqs; subst.
+    destruct (step ncpu st q) as [st'|] eqn:E.
+    - apply IH; [assumption|exact (step_preserves _ _ _ _ HI H1 Hg E)|exact (okg_step _ _ _ _ H1 Hg E)].
+    - apply IH; assumption.
   Qed.
 End Scalar.
 
@@ -444,12 +481,23 @@ Proof.
   apply negb_true_iff in H. apply Z.leb_gt in H. lia.
 Qed.
 
+Lemma all_true : forall (l : list group), forallb (fun _ => true) l = true.
+Proof. induction l; simpl; auto. Qed.
+Lemma all_true_forall : forall (qs : list req), Forall (fun q => (fun _ : res => True) (req_res q)) qs.
+Proof. induction qs; constructor; auto. Qed.
+
 Theorem fit_invariant_mem_threads : forall ncpu qs,
   inv_mem (run ncpu [] qs) = true /\ inv_thr (run ncpu [] qs) = true.
 Proof.
   intros ncpu qs. split.
-  - apply (run_preserves l_mem r_mem apply_mem eq_refl fit_mem sub_nonneg_mem ncpu qs []). split; reflexivity.
-  - apply (run_preserves l_thr r_thr apply_thr eq_refl fit_thr sub_nonneg_thr ncpu qs []). split; reflexivity.
+  - apply (run_preserves l_mem r_mem (fun _ => True) (fun _ => true)); try (split; reflexivity); try reflexivity; auto using all_true, all_true_forall.
+    + intros l r _. apply apply_mem.
+    + intros ncpu0 known inh g chain r _ _ _ _. apply fit_mem.
+    + intros r _. apply sub_nonneg_mem.
+  - apply (run_preserves l_thr r_thr (fun _ => True) (fun _ => true)); try (split; reflexivity); try reflexivity; auto using all_true, all_true_forall.
+    + intros l r _. apply apply_thr.
+    + intros ncpu0 known inh g chain r _ _ _ _. apply fit_thr.
+    + intros r _. apply sub_nonneg_thr.
 Qed.
 
 (* what `fits` says, group by group *)
@@ -742,4 +790,202 @@ Proof.
   { induction qs as [|q qs IH]; intros st HI; cbn [run]; [exact HI|].
     apply IH. destruct (step ncpu st q) as [st'|] eqn:E; [exact (step_preserves_sets _ _ _ _ HI E)|exact HI]. }
   apply G0. reflexivity.
+Qed.
+
+(* ---------------------------------------------------------------- the cpu fit without percentage-only quotas *)
+
+Definition fcpu (l : limits) : Z := l_cnt l * l_pct l.
+Definition selcpu (r : res) : option Z := match r_cpu r with Some (c, p) => Some (c * p) | None => None end.
+(* every cpu quota requested has a count >= 1 and a percentage >= 1 *)
+Definition okr_cpu (r : res) : Prop := match r_cpu r with Some (c, p) => 0 < c /\ 0 < p | None => True end.
+(* a group has count and percentage both >= 1, or no cpu quota at all *)
+Definition nc0 (l : limits) : bool :=
+  ((0 <? l_cnt l) && (0 <? l_pct l)) || ((l_cnt l =? 0) && (l_pct l =? 0)).
+Fixpoint okg_cpu (g : group) : bool := match g with G _ l ss => nc0 l && forallb okg_cpu ss end.
+
+Lemma nc0_cases : forall l, nc0 l = true -> (0 < l_cnt l /\ 0 < l_pct l) \/ (l_cnt l = 0 /\ l_pct l = 0).
+Proof.
+  intros l H. unfold nc0 in H. apply orb_true_iff in H. destruct H as [H|H]; apply andb_true_iff in H; destruct H as [A B].
+  - left. split; apply Z.ltb_lt; assumption.
+  - right. split; apply Z.eqb_eq; assumption.
+Qed.
+
+Lemma alloc_nc0 : forall ncpu inh l, nc0 l = true -> cpu_alloc ncpu inh l = fcpu l.
+Proof.
+  intros ncpu inh l H. unfold cpu_alloc, fcpu. destruct (nc0_cases l H) as [[A B]|[A B]].
+  - assert ((l_pct l =? 0) = false) by (apply Z.eqb_neq; lia). assert ((l_cnt l =? 0) = false) by (apply Z.eqb_neq; lia).
+    rewrite H0, H1. reflexivity.
+  - rewrite B. cbn [Z.eqb]. lia.
+Qed.
+
+Lemma okg_cpu_eq : forall i l ss, okg_cpu (G i l ss) = nc0 l && forallb okg_cpu ss.
+Proof. reflexivity. Qed.
+
+Lemma resv_nc0 : forall ncpu g, okg_cpu g = true -> forall inh, cpu_resv ncpu inh g = resv fcpu g.
+Proof.
+  intros ncpu. induction g as [i l ss IH] using group_ind'. intros H inh.
+  rewrite okg_cpu_eq in H. apply andb_true_iff in H. destruct H as [_ Hs].
+  rewrite resv_eq. cbn [cpu_resv]. generalize (eff_set inh l). intro e.
+  induction ss as [|c r IHr]; [reflexivity|].
+  inversion IH as [|? ? Hc1 Hr1]; subst. cbn [forallb] in Hs. apply andb_true_iff in Hs. destruct Hs as [Hc Hr].
+  cbn [sumc]. rewrite (IHr Hr1 Hr). unfold contrib. rewrite (Hc1 Hc e).
+  destruct c as [ci cl css]. cbn [lim]. rewrite okg_cpu_eq in Hc. apply andb_true_iff in Hc. destruct Hc as [Hn _].
+  rewrite (alloc_nc0 _ _ _ Hn). reflexivity.
+Qed.
+
+Lemma fits_nc0 : forall ncpu g, okg_cpu g = true -> forall inh, cpu_fits_tree ncpu inh g = fits fcpu g.
+Proof.
+  intros ncpu. induction g as [i l ss IH] using group_ind'. intros H inh.
+  pose proof H as H0. rewrite okg_cpu_eq in H. apply andb_true_iff in H. destruct H as [Hn Hs].
+  rewrite fits_eq. cbn [cpu_fits_tree]. rewrite (resv_nc0 ncpu _ H0 inh), resv_eq, (alloc_nc0 _ _ _ Hn).
+  f_equal. clear H0. generalize (eff_set inh l). intro e.
+  induction ss as [|c r IHr]; [reflexivity|].
+  inversion IH as [|? ? Hc1 Hr1]; subst. cbn [forallb] in Hs. apply andb_true_iff in Hs. destruct Hs as [Hc Hr].
+  cbn [forallb]. rewrite (Hc1 Hc e). f_equal. apply IHr; assumption.
+Qed.
+
+Lemma nc0_apply : forall l r, okr_cpu r -> nc0 l = true -> nc0 (apply_res l r) = true.
+Proof.
+  intros l r Hr Hl. unfold okr_cpu in Hr. unfold apply_res, nc0 in *.
+  destruct (r_cpu r) as [[c p]|]; destruct (r_set r); cbn [l_cnt l_pct]; try exact Hl;
+    destruct Hr as [A B]; apply Z.ltb_lt in A; apply Z.ltb_lt in B; rewrite A, B; reflexivity.
+Qed.
+
+Lemma okg_get : forall p g t, okg_cpu g = true -> get g p = Some t -> okg_cpu t = true.
+Proof.
+  induction p as [|j p IH]; intros g t H Hg; cbn [get] in Hg.
+  - inversion Hg; subst. exact H.
+  - destruct g as [gi gl gss]. cbn [subs] in Hg. destruct (nth_error gss j) as [c|] eqn:E; [|discriminate].
+    rewrite okg_cpu_eq in H. apply andb_true_iff in H. destruct H as [_ Hs].
+    exact (IH _ _ (forallb_nth _ _ _ _ Hs E) Hg).
+Qed.
+
+Lemma okg_modify : forall t' p g t, okg_cpu g = true -> get g p = Some t -> okg_cpu t' = true ->
+  okg_cpu (modify g p (fun _ => t')) = true.
+Proof.
+  intros t'. induction p as [|j p IH]; intros g t H Hg Ht; cbn [get modify] in *.
+  - exact Ht.
+  - destruct g as [gi gl gss]. cbn [subs lim gid] in *. destruct (nth_error gss j) as [c|] eqn:E; [|discriminate].
+    rewrite okg_cpu_eq in *. apply andb_true_iff in H. destruct H as [Hn Hs]. rewrite Hn. cbn [andb].
+    apply forallb_replace; [exact Hs|]. exact (IH _ _ (forallb_nth _ _ _ _ Hs E) Hg Ht).
+Qed.
+
+Lemma update_limits_eq : forall ncpu known inh g chain r l',
+  update_limits ncpu known inh g chain r = Some l' -> l' = apply_res (lim g) r.
+Proof.
+  intros ncpu known inh g chain r l' H. unfold update_limits in H.
+  destruct (validate_change (lim g) r && validate_fit ncpu known inh g chain r); [|discriminate]. inversion H. reflexivity.
+Qed.
+
+Lemma okg_cpu_step : forall ncpu st q st', okr_cpu (req_res q) -> forallb okg_cpu st = true ->
+  step ncpu st q = Some st' -> forallb okg_cpu st' = true.
+Proof.
+  intros ncpu st q st' Hok Hg H. destruct q as [id r | p id r | p r]; cbn [step] in H; cbn [req_res] in Hok.
+  - destruct (update_limits ncpu true [] (G id no_limits []) [] r) as [l'|] eqn:U; [|discriminate].
+    destruct (validate_limits l'); [|discriminate]. inversion H; subst st'.
+    apply update_limits_eq in U. cbn [lim] in U. subst l'.
+    rewrite forallb_app, Hg. cbn [forallb]. rewrite okg_cpu_eq. rewrite (nc0_apply no_limits _ Hok (eq_refl : nc0 no_limits = true)). reflexivity.
+  - destruct p as [|i p]; [discriminate|].
+    destruct (nth_error st i) as [root|] eqn:Er; [|discriminate].
+    destruct (walk [] root p []) as [[[pinh P] chain]|] eqn:W; [|discriminate].
+    destruct (update_limits ncpu false (eff_set pinh (lim P)) (G id no_limits []) ((pinh, P) :: chain) r) as [l'|] eqn:U; [|discriminate].
+    destruct (negb (N.eqb id (gid P)) && validate_limits l'); [|discriminate].
+    inversion H; subst st'; clear H. apply update_limits_eq in U. cbn [lim] in U. subst l'.
+    pose proof (walk_get _ _ _ _ _ _ _ W) as Hget.
+    assert (Hr : okg_cpu root = true) by exact (forallb_nth _ _ _ _ Hg Er).
+    pose proof (okg_get _ _ _ Hr Hget) as HP.
+    rewrite (modify_const _ _ _ _ Hget). apply forallb_replace; [exact Hg|].
+    apply (okg_modify _ _ _ _ Hr Hget). destruct P as [pi pl pss]. cbn [gid lim subs].
+    rewrite okg_cpu_eq in *. apply andb_true_iff in HP. destruct HP as [Hn Hs]. rewrite Hn, forallb_app, Hs.
+    cbn [forallb andb]. rewrite okg_cpu_eq. rewrite (nc0_apply no_limits _ Hok (eq_refl : nc0 no_limits = true)). reflexivity.
+  - destruct p as [|i p]; [discriminate|].
+    destruct (nth_error st i) as [root|] eqn:Er; [|discriminate].
+    destruct (walk [] root p []) as [[[inh t] chain]|] eqn:W; [|discriminate].
+    destruct (update_limits ncpu true inh t chain r) as [l'|] eqn:U; [|discriminate].
+    inversion H; subst st'; clear H. apply update_limits_eq in U. subst l'.
+    pose proof (walk_get _ _ _ _ _ _ _ W) as Hget.
+    assert (Hr : okg_cpu root = true) by exact (forallb_nth _ _ _ _ Hg Er).
+    pose proof (okg_get _ _ _ Hr Hget) as HT.
+    rewrite (modify_const _ _ _ _ Hget). apply forallb_replace; [exact Hg|].
+    apply (okg_modify _ _ _ _ Hr Hget). destruct t as [ti tl tss]. cbn [gid lim subs].
+    rewrite okg_cpu_eq in *. apply andb_true_iff in HT. destruct HT as [Hn Hs].
+    rewrite (nc0_apply _ _ Hok Hn), Hs. reflexivity.
+Qed.
+
+Lemma fcpu_apply : forall l r, okr_cpu r -> fcpu (apply_res l r) = match selcpu r with Some v => v | None => fcpu l end.
+Proof.
+  intros l r _. unfold fcpu, selcpu, apply_res. destruct (r_cpu r) as [[c p]|]; destruct (r_set r); reflexivity.
+Qed.
+
+(* the repaired parent loop implies the scalar parent check *)
+Lemma parents_scalar : forall ncpu chain req ex, Forall (fun a : anc => okg_cpu (snd a) = true) chain ->
+  cpu_parents ncpu chain req ex = true ->
+  match find (limited fcpu) chain with
+  | None => True
+  | Some a => req <= fcpu (lim (snd a)) - (resv fcpu (snd a) - ex)
+  end.
+Proof.
+  intros ncpu chain req ex F. induction F as [|[ainh a] rest Ha Hrest IH]; intro H; cbn [find cpu_parents] in *; [exact I|].
+  cbn [snd] in Ha. unfold limited at 1. cbn [snd].
+  destruct a as [ai al ass]. cbn [lim] in *. pose proof Ha as Ha0. rewrite okg_cpu_eq in Ha. apply andb_true_iff in Ha.
+  destruct Ha as [Hn _]. rewrite (alloc_nc0 _ _ _ Hn) in H.
+  destruct (fcpu al =? 0) eqn:Z0; cbn [negb] in *.
+  - destruct (negb (nilb (l_set al)) && (req >? zlen (l_set al) * 100)); [discriminate|]. exact (IH H).
+  - rewrite (resv_nc0 ncpu _ Ha0 ainh) in H. apply negb_true_iff in H. rewrite Z.gtb_ltb in H. apply Z.ltb_ge in H. exact H.
+Qed.
+
+Lemma fit_cpu : forall ncpu known inh g chain r, okr_cpu r -> okg_cpu g = true ->
+  Forall (fun a : anc => okg_cpu (snd a) = true) chain -> (known = false -> lim g = no_limits) ->
+  validate_fit ncpu known inh g chain r = true ->
+  match selcpu r with Some v => validate_scalar fcpu known g chain v = true | None => True end.
+Proof.
+  intros ncpu known inh g chain r Hok Hg Hc Hkn H. unfold selcpu. unfold okr_cpu in Hok.
+  unfold validate_fit in H. repeat (apply andb_true_iff in H; destruct H as [H ?]).
+  destruct (r_cpu r) as [[c p]|]; [|exact I]. destruct Hok as [Hc0 Hp0].
+  assert (Ep : (p =? 0) = false) by (apply Z.eqb_neq; lia).
+  match goal with X : (if p =? 0 then true else _) = true |- _ => rewrite Ep in X; rename X into V end.
+  unfold validate_cpu in V. assert (Ec : (c =? 0) = false) by (apply Z.eqb_neq; lia). rewrite Ec in V.
+  destruct g as [gi gl gss]. cbn [lim] in *. pose proof Hg as Hg0. rewrite okg_cpu_eq in Hg. apply andb_true_iff in Hg.
+  destruct Hg as [Hn _]. rewrite (alloc_nc0 _ _ _ Hn), (resv_nc0 ncpu _ Hg0 inh) in V.
+  unfold validate_scalar. cbn [lim].
+  destruct (known && (resv fcpu (G gi gl gss) >? c * p)); [discriminate|].
+  destruct (known && (c * p <? fcpu gl)); [reflexivity|].
+  pose proof (parents_scalar _ _ _ _ Hc V) as P.
+  change (fun a : anc => negb (fcpu (lim (snd a)) =? 0)) with (limited fcpu).
+  destruct (find (limited fcpu) chain) as [a|]; [|reflexivity].
+  apply negb_true_iff. rewrite Z.gtb_ltb. apply Z.ltb_ge.
+  destruct known; [exact P|]. rewrite (Hkn eq_refl). unfold fcpu at 3. cbn [no_limits l_cnt l_pct]. lia.
+Qed.
+
+Lemma sub_nonneg_cpu : forall r, okr_cpu r -> validate_change no_limits r = true ->
+  validate_limits (apply_res no_limits r) = true -> 0 <= fcpu (apply_res no_limits r).
+Proof.
+  intros r Hok _ _. rewrite (fcpu_apply _ _ Hok). unfold selcpu, okr_cpu in *.
+  destruct (r_cpu r) as [[c p]|]; [nia|reflexivity].
+Qed.
+
+Lemma run_okg_cpu : forall ncpu qs st, Forall (fun q => okr_cpu (req_res q)) qs ->
+  forallb okg_cpu st = true -> forallb okg_cpu (run ncpu st qs) = true.
+Proof.
+  intros ncpu qs. induction qs as [|q qs IH]; intros st Hqs Hg; cbn [run]; [exact Hg|].
+  inversion Hqs; subst. destruct (step ncpu st q) as [st'|] eqn:E.
+  - apply IH; [assumption|exact (okg_cpu_step _ _ _ _ H1 Hg E)].
+  - apply IH; assumption.
+Qed.
+
+Theorem cpu_fit_without_percentage_only : forall ncpu qs,
+  Forall (fun q => okr_cpu (req_res q)) qs -> inv_cpu ncpu (run ncpu [] qs) = true.
+Proof.
+  intros ncpu qs Hqs.
+  assert (HI : Inv fcpu (run ncpu [] qs)).
+  { apply (run_preserves fcpu selcpu okr_cpu okg_cpu); try assumption; try reflexivity.
+    - intros i l ss H. rewrite okg_cpu_eq in H. apply andb_true_iff in H. tauto.
+    - exact okg_cpu_step.
+    - exact fcpu_apply.
+    - exact fit_cpu.
+    - exact sub_nonneg_cpu.
+    - split; reflexivity. }
+  pose proof (run_okg_cpu ncpu qs [] Hqs eq_refl) as Hg.
+  destruct HI as [Hf _]. unfold inv_cpu. rewrite forallb_forall in *. intros g Hin.
+  rewrite (fits_nc0 ncpu g (Hg g Hin) []). exact (Hf g Hin).
 Qed.
